@@ -77,7 +77,7 @@ package v02
 //@     invariant wfSoFar: forall i :: 0 <= i && i < len(t.Delegations.Roles) - 1 ==> wfRule(t, t.Delegations.Roles[i])
 //@     invariant allowStill: isAllow(t.Delegations.Roles[len(t.Delegations.Roles) - 1])
 //@     invariant updatedSoFar: forall i :: 0 <= i && i <= rangeindex && t.Delegations.Roles[i].Name == ruleName ==> t.Delegations.Roles[i].Threshold == threshold && t.Delegations.Roles[i].Paths == rulePatterns
-//@     invariant othersSoFar: forall i :: 0 <= i && i < len(t.Delegations.Roles) && (i > rangeindex || t.Delegations.Roles[i].Name != ruleName) ==> t.Delegations.Roles[i].Threshold == old(t.Delegations.Roles[i].Threshold) && t.Delegations.Roles[i].Paths == old(t.Delegations.Roles[i].Paths) && t.Delegations.Roles[i].PrincipalIDs == old(t.Delegations.Roles[i].PrincipalIDs)
+//@     invariant othersSoFar: forall i :: 0 <= i && i < len(t.Delegations.Roles) && t.Delegations.Roles[i].Name != ruleName ==> t.Delegations.Roles[i].Threshold == old(t.Delegations.Roles[i].Threshold) && t.Delegations.Roles[i].Paths == old(t.Delegations.Roles[i].Paths) && t.Delegations.Roles[i].PrincipalIDs == old(t.Delegations.Roles[i].PrincipalIDs)
 //@     invariant newSet: principalIDs != nil && fresh(principalIDs) && principalIDs.contents != nil && threshold >= 1 && threshold <= len(principalIDs.contents) && (forall k string :: has(principalIDs.contents, k) ==> has(t.Delegations.Principals, k))
 
 //@ func [C13] (*Delegations).removePrincipal -> (err)
@@ -91,3 +91,10 @@ package v02
 //@   loop 1:
 //@     invariant unused: forall i :: 0 <= i && i <= rangeindex ==> d.Roles[i].PrincipalIDs == nil || !has(d.Roles[i].PrincipalIDs.contents, principalID)
 //@     invariant same: forall k string :: has(d.Principals, k) == old(has(d.Principals, k))
+
+//@ func [C06,C10] (*Delegation).Matches -> (m)
+//@   pure
+//@   requires d != nil
+//@   ensures iff: m <==> (exists i :: 0 <= i && i < len(d.Paths) && fnm(d.Paths[i], target))
+//@   loop 1:
+//@     invariant noneSoFar: forall j :: 0 <= j && j <= rangeindex ==> !fnm(d.Paths[j], target)
